@@ -245,8 +245,38 @@ func c03Files(c *Ctx) {
 			var text bytes.Buffer
 			var want []item
 			var wantRecs []item
+			// One file in four is COHERENT the way real files are: the header declares reference sequences (SN, with
+			// alternative names AN, M5, AS, UR), read groups and programs, and the records name them — by the primary
+			// name, by an alias, by a name of another kind, by a name that differs only in case. A reader that relates
+			// records to the header it has seen returns what is WRITTEN in the record.
+			var refNames, groupIDs []string
+			if r.IntN(4) == 0 {
+				nh = 2 + r.IntN(5)
+				k.Count("coherent_files", 1)
+			}
+			coherent := 0
 			for j := 0; j < nh; j++ {
 				h := genSamHeader(r)
+				if refNames != nil || (nh >= 2 && k.Idx%4 == 0) {
+					switch coherent % 4 {
+					case 0:
+						h = "@HD\tVN:1.6\tSO:coordinate"
+						refNames = []string{}
+					case 1, 2:
+						sn := pick(r, []string{"chr1", "chr2", "chrM", "1", "NC_000001.11", "scaffold_12", "HLA-A*01:01"}) + pick(r, []string{"", "", "_alt", ".2"})
+						alts := []string{strings.TrimPrefix(sn, "chr") + "x", "NC_0000" + fmt.Sprint(10+r.IntN(80)) + ".1", strings.ToUpper(sn) + "_"}
+						h = "@SQ\tSN:" + sn + "\tLN:" + fmt.Sprint(1+r.IntN(1e8)) + "\tAN:" + strings.Join(alts[:1+r.IntN(3)], ",")
+						if r.IntN(2) == 0 { // AN before SN
+							h = "@SQ\tAN:" + alts[0] + "\tSN:" + sn + "\tLN:5"
+						}
+						refNames = append(refNames, sn, alts[0], alts[1], strings.ToLower(sn), "*", "=", sn+" ")
+					default:
+						id := pick(r, []string{"grp1", "A", "lane.3", "chr1"})
+						h = "@RG\tID:" + id + "\tSM:s\tPL:ILLUMINA"
+						groupIDs = append(groupIDs, id, id+"x", strings.ToUpper(id))
+					}
+					coherent++
+				}
 				text.WriteString(h)
 				text.WriteByte('\n')
 				want = append(want, item{Key: fmt.Sprintf("HDR{%q}", h)})
@@ -255,6 +285,15 @@ func c03Files(c *Ctx) {
 			var ws []func(io.Writer) error
 			for j := 0; j < nr; j++ {
 				s := genSAM(r)
+				if len(refNames) > 0 {
+					s.Rname, s.Rnext = strings.TrimSpace(pick(r, refNames)), strings.TrimSpace(pick(r, refNames))
+					if len(groupIDs) > 0 && r.IntN(2) == 0 {
+						if s.Tags == nil {
+							s.Tags = map[string]any{}
+						}
+						s.Tags["RG"] = pick(r, groupIDs)
+					}
+				}
 				ms = append(ms, s.MarshalText)
 				ws = append(ws, s.Write)
 				want = append(want, item{Key: samKey(s)})
